@@ -9,6 +9,7 @@ Wire conventions added here:
 -/
 import HtmlVerif.Ops.Base
 import HtmlVerif.Model.FS
+import HtmlVerif.Model.SaveDoc
 import HtmlVerif.Holds.C12
 
 namespace HtmlVerif.Ops
@@ -48,26 +49,11 @@ def depUrls (d : DepInfo) (lp : Option Str) (iv : Bool) : List Str :=
   (match asDictSheets base d.stylesheet with | .ok s => get dtKHref s | .error _ => [])
     ++ (match asDictScripts base d.script with | .ok s => get dtKSrc s | .error _ => [])
 
-/-- what `copy_to` asks the OS to do, as data: whether the target is cleared, and for each item whether it is
-    copied as a file (`f`) or as a tree (`d`) (skipped items are not calls), in loop order (sorted when the order comes from a
-    directory listing) -/
-def copyPlan (d : DepInfo) (path : Str) (iv : Bool) (fs : FS) : String :=
-  let pm := sourcePathMap d none iv
-  if pm.source.isEmpty then "none"
-  else
-    let targetDir := posixJoin path pm.href
-    match copyItems d pm.source targetDir fs with
-    | .error e => "err " ++ encErr e
-    | .ok items =>
-      if !items.all (fun it => fs.exists it.1) then "err exception"
-      else
-        let T := pathResolve targetDir
-        let rows := items.filterMap fun it =>
-          if fs.isFile it.1 then some ("f " ++ encPath it.1 ++ " " ++ encPath it.2)
-          else if fs.isDir it.1 then some ("d " ++ encPath it.1 ++ " " ++ encPath it.2)
-          else none
-        "plan " ++ encBool (fs.exists T) ++ " " ++ encPath T ++ " "
-          ++ encList (if d.allFiles then sortStrings rows else rows)
+/-- the model's answer to `copy_atomic`: returned, or raised with the file system the same / changed -/
+def copyAtomic (d : DepInfo) (path : Str) (iv : Bool) (fs : FS) : String :=
+  match copyTo d path iv fs with
+  | (_, .ok _) => "ok"
+  | (fs', .error e) => "err " ++ encErr e ++ " " ++ (if Holds.fsEq fs fs' then "same" else "changed")
 
 def pathsOps : OpTable
   | "quote" => some do
@@ -100,14 +86,24 @@ def pathsOps : OpTable
     let d ← depInfo; let path ← str; let iv ← bool; let _cwd ← str; let fs ← fsP
     let (fs', r) := copyTo d path iv fs
     pure (encUnit r ++ " " ++ encFS fs')
-  | "copy_plan" => some do
+  | "copy_atomic" => some do
     let d ← depInfo; let path ← str; let iv ← bool; let _cwd ← str; let fs ← fsP
-    pure (copyPlan d path iv fs)
+    pure (copyAtomic d path iv fs)
   | "save_html" => some do
     let _recv ← next; let _content ← nodes; let file ← str; let fileAbs ← str; let libdir ← optStr
     let iv ← bool; let _cwd ← str; let html ← str; let deps ← depList; let fs ← fsP
-    let recv : Receiver := if _recv == "doc" then .document else if _recv == "tag" then .tag else .tagList
-    let (fs', r) := saveHtmlOn recv (fun _ _ => { html := html, deps := deps }) file fileAbs libdir iv fs
+    -- the model renders the document itself (Model/SaveDoc.lean): the markup written and the dependencies copied
+    -- come from `Doc.docRender` of the receiver's content with `lib_prefix = libdir`; the implementation's own
+    -- rendering (`html`, `deps`, passed on the line) is what the executable statement is evaluated on
+    let _ := html
+    let recv : Receiver :=
+      if _recv == "doc" then .document _content []
+      else if _recv == "tag" then (match _content with | .cons t .nil => .tag t | c => .tagList c)
+      else .tagList _content
+    let (fs', r) := saveOn cfg recv file fileAbs libdir iv fs
+    let deps := match Doc.docRender cfg recv.doc.1 recv.doc.2 libdir iv with
+      | .ok rr => depInfos rr.deps
+      | .error _ => deps
     let urls := match r with
       | .ok _ => deps.flatMap fun d => depUrls d libdir iv
       | .error _ => []
